@@ -124,5 +124,21 @@ Proof.
   cbv [split_bezier dc_levels dc_step length map rev app last hd snd fst].
   rewrite agree_split_4. reflexivity.
 Qed.
+(* AGREE gen_crop_bezier_cubic *)
+(* crop_bezier with the ANALYTIC relocation t1_adj = (t1 - t0)/(1 - t0) (the repaired code; on the
+   pinned code the relocation is the radialrange oracle and the function is outside the translator's
+   subset): the whole function, with its recursive calls inlined and the t0 == 0 / t1 == 1 tests as
+   conditional values, is the model's crop_bezier_v true — for every field of characteristic 0 *)
+Lemma agree_crop_bezier_cubic s c1 c2 e t0 t1 oracle :
+  gen_crop_bezier_cubic N s c1 c2 e t0 t1 = crop_bezier_v N true [s; c1; c2; e] t0 t1 oracle.
+Proof. agree_cases_noT OK N. Qed.
+(* AGREE gen_crop_bezier_quad *)
+Lemma agree_crop_bezier_quad s c e t0 t1 oracle :
+  gen_crop_bezier_quad N s c e t0 t1 = crop_bezier_v N true [s; c; e] t0 t1 oracle.
+Proof. agree_cases_noT OK N. Qed.
+(* AGREE gen_crop_bezier_line *)
+Lemma agree_crop_bezier_line s e t0 t1 oracle :
+  gen_crop_bezier_line N s e t0 t1 = crop_bezier_v N true [s; e] t0 t1 oracle.
+Proof. agree_cases_noT OK N. Qed.
 (* FOOTER *)
 End A.
